@@ -131,6 +131,20 @@ func Main(profile string) {
 	}
 	genAsy()
 	if profile == "c08" {
+		nB, nW := 58, 14
+		if cfg.Thorough() {
+			nB, nW = 870, 140
+		}
+		for i := 0; i < nB; i++ {
+			r := rng.Fork()
+			emit("hdrb", append([]string{"STEP"}, GenHdrBoundary(r, i)...))
+		}
+		for i := 0; i < nW; i++ {
+			r := rng.Fork()
+			emit("iniw", append([]string{"STEP"}, GenInitWindow(r, i)...))
+		}
+	}
+	if profile == "c08" {
 		for i := 0; i < nPre; i++ {
 			r := rng.Fork()
 			emit("pre", append([]string{"PRE"}, GenPreface(r)...))
